@@ -203,8 +203,36 @@ def probe_resolution_independent(D, seed):
     return {"ok": bool(abs(a - b) <= 1e-10 * (abs(a) + 1)), "a": a, "b": b}
 
 
+def probe_mean_metric(D, N, seed):
+    """`mean_metric(fn, u_batch, v_batch, **kw)` = arithmetic mean over the batch of `fn(u_i, v_i, **kw)` (the regenerated
+    `Gen.Base.mean_metric`); one member: the metric itself; keyword arguments reach every member"""
+    import jax.numpy as jnp
+    from exponax import metrics as M
+    rng = np.random.default_rng(seed)
+    B = 3 + seed % 3
+    u = rng.normal(size=(B, 2) + (N,) * D)
+    v = rng.normal(size=(B, 2) + (N,) * D)
+    res = {}
+    for name, kw in [("MSE", {}), ("nRMSE", {}), ("MAE", {"domain_extent": 2.5}), ("fourier_nRMSE", {}),
+                     ("H1_MSE", {"domain_extent": 0.7}), ("correlation", {})]:
+        fn = getattr(M, name)
+        got = float(M.mean_metric(fn, jnp.asarray(u), jnp.asarray(v), **kw))
+        per = [float(fn(jnp.asarray(u[i]), jnp.asarray(v[i]), **kw)) for i in range(B)]
+        res[name] = abs(got - float(np.mean(per))) / (abs(float(np.mean(per))) + 1.0)
+        one = float(M.mean_metric(fn, jnp.asarray(u[:1]), jnp.asarray(v[:1]), **kw))
+        res[name + "_single"] = abs(one - per[0]) / (abs(per[0]) + 1.0)
+    bad = {k: x for k, x in res.items() if not x < 1e-12}
+    return {"ok": not bad, "bad": bad, "all": res}
+
+
 def oracle(ctx, deep):
     fails = []
+    for (D, N) in [(1, 9), (2, 6)] + ([(3, 4), (1, 16)] if deep else []):
+        r = probe_mean_metric(D, N, ctx.seed)
+        ctx.count(("oracle_mean_metric", D, N))
+        if not r["ok"]:
+            fails.append({"key": "C16:mean_metric", "what": f"mean_metric is not the batch mean of the per-member metric (D={D}, N={N}): {r['bad']}",
+                          "probe": "mean_metric", "args": {"D": D, "N": N, "seed": ctx.seed}, "observed": r})
     cases = [(1, 8), (1, 9), (2, 6), (2, 7), (3, 4), (3, 5)] if not deep else [(1, n) for n in range(4, 16)] + [(2, n) for n in range(4, 10)] + [(3, 4), (3, 5), (3, 6)]
     for (D, N) in cases:
         r = probe_consistency(D, N, ctx.seed)
@@ -227,4 +255,5 @@ def oracle(ctx, deep):
 
 
 def replay(probe, args):
-    return {"consistency": probe_consistency, "resolution_independent": probe_resolution_independent}[probe](**args)
+    return {"consistency": probe_consistency, "resolution_independent": probe_resolution_independent,
+            "mean_metric": probe_mean_metric}[probe](**args)
